@@ -116,6 +116,9 @@ pub fn selftest() -> i32 {
     let table = c06::serde_table();
     for it in c06::items().iter().filter(|i| i.attr == 0) {
         let conv = c06::conventions()[it.conv];
+        if conv.is_some_and(|c| c.contains(':')) {
+            continue;
+        }
         let idents: Vec<&str> = if it.is_enum { c06::VARIANT_IDENTS.to_vec() } else { c06::FIELD_IDENTS.to_vec() };
         for id in idents {
             checks += 1;
